@@ -268,6 +268,20 @@ def differential(E, grid_desc, failures, hsh):
             except ValueError:
                 pass
         hsh.update(numpy.asarray(gi).tobytes())
+        # history on the SAME catalog object: (1) its region is re-bound to one whose magnitude edges start one bin higher,
+        # (2) its magnitudes are then edited in place (reversed); the index must follow the current edges and values each time
+        if m >= 3:
+            E2 = numpy.array(E[1:], dtype=float)
+            cat.region = fixtures.cartesian_region([(0.0, 0.0)], 0.1, magnitudes=E2)
+            g2 = numpy.asarray(cat.get_mag_idx())
+            evals += 1
+            if not numpy.array_equal(g2, numpy.asarray(bin1d_vec(v[inr], E2, right_continuous=True))):
+                failures.append(Fail('CSEPCatalog.get_mag_idx|differs-from-bin1d_vec|after-rebinding-region-with-other-edges', f'grid={grid_desc}', rep))
+            cat.catalog['magnitude'] = cat.catalog['magnitude'][::-1].copy()
+            g3 = numpy.asarray(cat.get_mag_idx())
+            evals += 1
+            if not numpy.array_equal(g3, numpy.asarray(bin1d_vec(v[inr][::-1], E2, right_continuous=True))):
+                failures.append(Fail('CSEPCatalog.get_mag_idx|differs-from-bin1d_vec|after-editing-magnitudes-in-place', f'grid={grid_desc}', rep))
     except Exception as e:
         failures.append(Fail(f'magnitude-index-users|{type(e).__name__}|open', f'{type(e).__name__}: {e} grid={grid_desc}', rep))
     return evals
